@@ -17,6 +17,7 @@ SHELL = {
     'sed 1d': lambda ls: list(ls[1:]),
     'sed p': lambda ls: [x for l in ls for x in (l, l)],
     'head -n 2': lambda ls: list(ls[:2]),
+    'printf x': lambda ls: ['x'],       # output without a final newline (and a filter that does not read its input)
     'burst': lambda ls: list(ls),       # first line, a pause, then the rest: the output reaches the editor in several short reads
 }
 SIMPLE_PATS = ['a', 'o', 'foo', 'x', '^$', '^a', 'o$', 'b.r', 'zzzz', 'fo*', ' ', 'a/b', '/', 'o/']
@@ -93,7 +94,7 @@ def gen_script(R, kind):
         elif k < 0.69:
             c = 'r'
             loc = gen_addr(R, n, False, True, marks)
-            arg = R.choice(['f2', 'f2', 'f3', 'nosuch'])
+            arg = R.choice(['f2', 'f2', 'f3', 'f4', 'f4', 'nosuch'])      # (f4's last line has no terminator)
         elif k < 0.79:
             c = 'p'
             loc = gen_addr(R, n, True, False, marks)
@@ -145,7 +146,7 @@ def run_script(args):
     R = rng('c06', idx)
     kind = R.choice(['ascii', 'ascii', 'mixed'])
     lines, cmds = gen_script(R, kind)
-    files = {'f1': gen.buf_bytes(lines), 'f2': b'second file 1\nsecond 2\n', 'f3': b''}
+    files = {'f1': gen.buf_bytes(lines), 'f2': b'second file 1\nsecond 2\n', 'f3': b'', 'f4': b'n1\nn2 unterminated'}
     script = b''
     for k, c in enumerate(cmds):
         script += b'ec ' + S(4 * k) + b'\n' + render(c) + b'ec ' + S(4 * k + 1) + b'\n.=\nec ' + S(4 * k + 2) + b'\nw! d%d\n' % k
@@ -165,7 +166,7 @@ def run_script(args):
             return None
         return out.split(S(a), 1)[1].split(S(b), 1)[0]
 
-    M = mx.Ex(lines, icase=True, files={'f2': ['second file 1', 'second 2'], 'f3': []}, shell=SHELL)
+    M = mx.Ex(lines, icase=True, files={'f2': ['second file 1', 'second 2'], 'f3': [], 'f4': ['n1', 'n2 unterminated']}, shell=SHELL)
     nchk = 0
     nrej = 0
     for k, c in enumerate(cmds):
